@@ -28,6 +28,8 @@ type variantSpec struct {
 	Race bool `json:"race"`
 	// ScaleCaps: rewrite make(chan T, K) in the instrumented packages
 	ScaleCaps bool `json:"scale_caps"`
+	// SplitRMW: variables whose x++ / x-- is split at a scheduling point (race-directed)
+	SplitRMW []string `json:"split_rmw"`
 }
 
 type spec struct {
@@ -153,7 +155,7 @@ func main() {
 			}
 		}
 		if ok && len(vs.Sched) > 0 {
-			if err := instr.Instrument(ov, repoRoot(), root, instr.Options{Packages: vs.Sched, VisibleCalls: vs.VisibleCalls, ScaleCaps: vs.ScaleCaps}); err != nil {
+			if err := instr.Instrument(ov, repoRoot(), root, instr.Options{Packages: vs.Sched, VisibleCalls: vs.VisibleCalls, ScaleCaps: vs.ScaleCaps, SplitRMW: vs.SplitRMW}); err != nil {
 				fmt.Fprintf(os.Stderr, "variant %s: instrumentation failed: %v\n", name, err)
 				ok = false
 			}
